@@ -27,7 +27,11 @@ type JV struct {
 // ParseJSON reads text as exactly one JSON value (RFC 8259) surrounded by
 // optional whitespace.
 func ParseJSON(text string) (*JV, error) {
-	if !json.Valid([]byte(text)) {
+	jvalid := json.Valid([]byte(text))
+	if wf, d := WellFormed(text); wf != jvalid && d <= 10000 {
+		panic(fmt.Sprintf("harness: the two JSON validators disagree (own %v, encoding/json %v) on %q", wf, jvalid, text))
+	}
+	if !jvalid {
 		return nil, fmt.Errorf("not valid JSON")
 	}
 	dec := json.NewDecoder(strings.NewReader(text))
